@@ -108,6 +108,9 @@ def check_properties_file(pid, timeout=900):
     Print Assumptions output.  Returns a dict: obligations, discharged, theorems, axioms, ok, log."""
     rel = 'theories/Properties/%s.v' % pid
     src = os.path.join(COQ, rel)
+    if not os.path.exists(src):
+        return {'obligations': 0, 'discharged': 0, 'theorems': [], 'axioms': [], 'ok': False, 'broken': ['Properties/%s.v is missing' % pid],
+                'log': 'Properties/%s.v is missing' % pid, 'checker_cmd': 'coqc (file missing)'}
     text = open(src).read()
     text_nc = re.sub(r'\(\*.*?\*\)', '', text, flags=re.S)
     theorems = [m.group(2) for m in THEOREM_RE.finditer(text_nc)]
@@ -327,12 +330,12 @@ class Ctx(object):
                 print('KNOWN-FINDING: property=%s %s [%s]' % (self.pid, f.get('what', what), f['id']))
         os.makedirs(os.path.join(VERIF, 'replays'), exist_ok=True)
         nviol = 0
-        seen_v = set()
+        seen_v = {}
         for v in self.violations:
-            key = (v['kind'], v.get('finding_key') or v['what'][:80])
-            if key in seen_v and nviol >= 5:
+            key = (v['kind'], v.get('finding_key') or v['what'][:60])
+            seen_v[key] = seen_v.get(key, 0) + 1
+            if seen_v[key] > 2 or nviol >= 12:
                 continue
-            seen_v.add(key)
             nviol += 1
             body = {'property': self.pid, 'seed': self.seed, 'tier': self.tier, 'kind': v['kind'], 'what': v['what'],
                     'case': v['payload']}
